@@ -3,6 +3,7 @@
 Stimuli are injected below the assembled protocol layer set (all 16 module selections, with and without the encryption
 layers); the oracle inspects the stanzas the layer set sends down in response.
 """
+import sqlite3
 from .. import compat  # noqa: F401
 from ..core import Outcome
 from ..gen import entities as E
@@ -104,10 +105,23 @@ def run_case(case):
                 node = T.to_node((tag, dict(attrs, id=pending_id), content))
                 tree = (tag, dict(attrs, id=pending_id), content)
                 skip = len(rig.bottom.sent)
+            fault = None
+            if case.get("store_fault") and axolotl:
+                # the key refresh an encrypt/count notification triggers fails in the key store (disk full): the notification
+                # has been received all the same and is acknowledged once
+                fault = sqlite3.OperationalError("database or disk is full")
+                store = rig.stack.getProp("profile").axolotl_manager._store
+
+                def failing(*a, _f=fault, **k):
+                    raise _f
+                setattr(store, case["store_fault"], failing)
+                out.label("key_store_fault=" + case["store_fault"])
             try:
                 rig.inject(node)
             except Exception as e:
-                raised = e
+                raised = e if e is not fault else None
+                if e is fault:
+                    out.label("key_refresh_failed")
             sent = [s for s in rig.bottom.sent][skip:]
         finally:
             rig.close()
@@ -247,6 +261,12 @@ def plan(tier):
         strategies.append(("notification:" + r.name,
                            S.shape_strategy(r.shape).map(lambda t, _n=r.name: {"sub": "ack", "kind": "notification", "name": _n,
                                                                                 "tree": S.tree_to_json(t)}), n))
+    count = E.by_name("RequestKeysEncryptNotification")
+    for method in ("storeSignedPreKey", "storePreKey", "loadSignedPreKeys"):
+        strategies.append(("notification_count_with_failing_" + method,
+                           S.shape_strategy(count.shape).map(lambda t, _m=method: {"sub": "ack", "kind": "notification", "store_fault": _m,
+                                                                                   "name": "RequestKeysEncryptNotification",
+                                                                                   "tree": S.tree_to_json(t)}), n))
     unknown_type = S.Kind("UNKNOWN_TYPE", st.one_of(st.sampled_from(["mediaretry", "server_sync", "account_sync", "devices", "psa", "disappearing_mode",
                                                                      "privacy_token", "link_code_companion_reg", "business", "pay", "web", "features"]),
                                                     S.TEXT.strategy))
